@@ -62,6 +62,28 @@ def sweep_plans(base, rng, tier):
     return plans
 
 
+def selftest4(wd, rows, dec):
+    """single-field corruptions of frames the grammar accepted (TPKT length, last byte dropped, one byte appended, a
+    length byte in the middle changed) must be rejected by the same decoding pass"""
+    seen, picks = set(), []
+    for row, d in zip(rows, dec):
+        if row["side"] == "c" and d.get("ok") and d.get("kind") not in seen and len(row["b"]) > 12:
+            seen.add(d.get("kind")); picks.append(row)
+    muts = []
+    for row in picks:
+        b = row["b"]
+        muts.append(("tpkt_length_plus_one:" + str(len(muts)), dict(row, b=b[:3] + [(b[3] + 1) % 256] + b[4:])))
+        muts.append(("last_byte_dropped:" + str(len(muts)), dict(row, b=b[:-1])))
+        muts.append(("byte_appended:" + str(len(muts)), dict(row, b=b + [0x41])))
+        muts.append(("x224_header_changed:" + str(len(muts)), dict(row, b=b[:4] + [(b[4] + 1) % 256] + b[5:])))
+    bp, dp = os.path.join(wd, "self.blobs.ndjson"), os.path.join(wd, "self.decoded.ndjson")
+    with open(bp, "w") as f:
+        for k, (_, r) in enumerate(muts):
+            f.write(json.dumps(dict(r, id=k + 1), separators=(",", ":")) + "\n")
+    out = core.pass_a(bp, dp, wd)
+    return core.forward_selftest([(n.split(":")[0] + "#" + n.split(":")[1], not d.get("ok")) for (n, _), d in zip(muts, out)])
+
+
 def run(tier, seed):
     v = core.Verdict("C04", tier, seed)
     wd = core.workdir("C04")
@@ -97,6 +119,7 @@ def run(tier, seed):
                     v.violation("malformed:" + why.split(":")[0] + ":" + why.split(":")[1].strip()[:40] if ":" in why else "malformed:" + why,
                                 "client frame rejected by the strict grammar: %s; frame (%d bytes) starts %s" % (why, len(row["b"]), row["b"][:24]),
                                 {"why": why, "frame": row["b"]})
+        tested = selftest4(wd, blob_rows, dec) if not v.violations else []
         # a connect that panicked never produced its frame: report it here too (e.g. slicing a name inside a code point)
         for l in open(trace):
             if '"res":"panic"' in l:
@@ -112,7 +135,7 @@ def run(tier, seed):
                "rule": "every DISTINCT frame written by the client (the blob table de-duplicates) in %d whole connections (TLC-drawn configurations x conforming servers, plus a sweep of client name / domain / user / password over 23 "
                        "classes: empty, 1..64 code points, 2-byte, 3-byte, surrogate pairs, mixed, at the 15/16/17-unit boundary; screen sizes 0..65535; ids at their boundaries; both reported server versions) and %d activation/input runs, "
                        "decoded by WireClient.tla / WireNla.tla" % (len(plans), len(aplans)),
-               "frames_by_kind": kinds, "checker_cmd": mc.cmd}
+               "frames_by_kind": kinds, "binding_selftest_rejected": tested, "checker_cmd": mc.cmd}
         return v.finish("model_checking", cov, [
             "WireClient.tla / WireNla.tla are my transcription of MS-RDPBCGR, T.125, T.124, X.691, X.690, MS-NLMP, MS-CSSP; cross-checked against the captured vectors in the repository's tests (MC_Wire)",
             "uncompressedLength of the share data header: three deployed conventions are accepted",
